@@ -63,6 +63,11 @@ type Env struct {
 	abandoned []*sod.DB
 	// pending async writes exist (disk may lag)
 	dirty bool
+	// evidence classification state
+	released map[string]map[string]bool
+	reopened bool
+	// number of automatic sweep queries evaluated / with a non-empty non-total result
+	sweepQueries_, sweepPartial int
 	// last search delete etc. for hooks
 	step int
 }
@@ -283,6 +288,11 @@ func (e *Env) expectQuery(q Query, exp Obs) {
 		return
 	}
 	exp[key] = fmt.Sprintf("len=%d\n%s", len(set), e.modelLines(set))
+	e.sweepQueries_++
+	if len(set) > 0 && len(set) < len(e.m.objs) {
+		e.flag("sweep-query-partial-result")
+		e.sweepPartial++
+	}
 	if p, ok := e.m.orderedLast(q); ok {
 		ks := e.m.sortedKeys(set, p, false)
 		ss := make([]string, len(ks))
@@ -668,6 +678,7 @@ func applySets(d *Doc, sets []FieldSet) {
 // upsert runs one InsertOrUpdate against db and model and compares outcomes.
 func (e *Env) upsert(what string, d *Doc, id string) {
 	want, tv := e.m.Upsert(d, id)
+	e.classifyUpsert(d, id, want, tv)
 	arg := cloneDoc(d)
 	arg.Initialize(id)
 	err := e.db.InsertOrUpdate(arg)
@@ -692,6 +703,7 @@ func (e *Env) upsert(what string, d *Doc, id string) {
 		if _, isUpd := e.m.objs[nid]; isUpd {
 			e.flag("accepted-update")
 		}
+		e.trackStore(nid, tv)
 		e.m.store(nid, tv)
 		if e.cfg.Async != nil {
 			e.dirty = true
@@ -719,7 +731,90 @@ func (e *Env) upsert(what string, d *Doc, id string) {
 
 func (e *Env) deleteIDs(set map[string]bool) {
 	for id := range set {
+		e.trackDelete(id)
 		e.m.Delete(id)
+	}
+}
+
+// ---- classification helpers (evidence only; they never decide pass/fail)
+
+func (e *Env) releasedSet(path string) map[string]bool {
+	if e.released == nil {
+		e.released = map[string]map[string]bool{}
+	}
+	if e.released[path] == nil {
+		e.released[path] = map[string]bool{}
+	}
+	return e.released[path]
+}
+
+func (e *Env) trackDelete(id string) {
+	d, ok := e.m.objs[id]
+	if !ok {
+		return
+	}
+	for _, p := range e.cfg.UniquePaths() {
+		e.releasedSet(p.Path)[keyString(normLeaf(d, p))] = true
+	}
+}
+
+func (e *Env) trackStore(id string, tv *Doc) {
+	old := e.m.objs[id]
+	for _, p := range e.cfg.UniquePaths() {
+		k := keyString(normLeaf(tv, p))
+		if old != nil {
+			ok := keyString(normLeaf(old, p))
+			if ok != k {
+				e.releasedSet(p.Path)[ok] = true
+				e.flag("unique-key-moved")
+			}
+		}
+		if e.releasedSet(p.Path)[k] && (old == nil || keyString(normLeaf(old, p)) != k) {
+			e.flag("reuse-of-released-unique-value")
+			if e.reopened {
+				e.flag("reuse-of-released-unique-value-after-reopen")
+			}
+			delete(e.releasedSet(p.Path), k)
+		}
+	}
+	if old != nil {
+		for _, p := range e.cfg.IndexedPaths() {
+			if normLeaf(old, p).cmp(normLeaf(tv, p)) != 0 {
+				e.flag("update-moved-indexed-key")
+				break
+			}
+		}
+	}
+	if e.reopened {
+		e.flag("write-after-reopen")
+	}
+}
+
+func (e *Env) classifyUpsert(d *Doc, id string, want string, tv *Doc) {
+	// validity that depends on the transformed value (C15)
+	raw := cloneDoc(d)
+	rawValid := raw.Validate() == nil
+	if rawValid != (want != EInvalid) {
+		e.flag("validity-depends-on-transform")
+	}
+	if d.H != (Hooks{}) {
+		e.flag("hooks-active")
+	}
+	// case canonicalisation changed the supplied value (C16)
+	for path, c := range e.cfg.Cons {
+		if (c.Upper || c.Lower) && docPathIndex[path].Class == ClsStr && !throughNil(d, path) {
+			pre := cloneDoc(d)
+			pre.Transform()
+			if canonCase(c, leaf(pre, path).String()) != leaf(pre, path).String() {
+				e.flag("case-changed-on-store")
+				if strings.Contains(path, ".") {
+					e.flag("case-changed-on-store-nested")
+				}
+			}
+		}
+	}
+	if want == EUnique && e.reopened {
+		e.flag("rejected-unique-after-reopen")
 	}
 }
 
@@ -774,6 +869,7 @@ func (e *Env) Exec(i int, op *Op) bool {
 		if err := e.db.Delete(d); err != nil {
 			e.failf("%s: Delete(%s) failed: %v", what, e.tag(id), err)
 		}
+		e.trackDelete(id)
 		e.m.Delete(id)
 		e.flag("delete")
 	case "deleteAbsent":
@@ -792,6 +888,7 @@ func (e *Env) Exec(i int, op *Op) bool {
 			e.flag("delete")
 		}
 		for _, id := range append([]string(nil), e.m.live...) {
+			e.trackDelete(id)
 			e.m.Delete(id)
 		}
 	case "searchDelete":
@@ -961,6 +1058,10 @@ func (e *Env) modelBatch(mdocs []*Doc, mids []string) (string, map[string]*Doc, 
 	slot := map[*Doc]string{}
 	for k, d := range mdocs {
 		if d == nil {
+			if k > 0 {
+				e.flag("batch-offender-not-first")
+			}
+			e.flag("batch-wrong-type")
 			return EType, nil, nil
 		}
 		id := mids[k]
@@ -974,13 +1075,28 @@ func (e *Env) modelBatch(mdocs []*Doc, mids []string) (string, map[string]*Doc, 
 		slot[d] = id
 		ids[k] = id
 		d.Initialize(id)
+		if _, again := tmp[id]; again {
+			e.flag("batch-same-uuid-twice")
+		}
+		if _, live := e.m.objs[id]; live {
+			e.flag("batch-updates-stored-object")
+		}
 		if out := e.m.prepare(d); out != OK {
+			if k > 0 {
+				e.flag("batch-offender-not-first")
+			}
+			e.flag("batch-invalid-member")
 			return out, nil, nil
 		}
 		if e.m.conflicts(d, id, tmp) {
+			e.flag("batch-intra-conflict")
 			return EUnique, nil, nil
 		}
 		if e.m.conflicts(d, id, e.m.objs) {
+			if k > 0 {
+				e.flag("batch-offender-not-first")
+			}
+			e.flag("batch-conflict-with-stored")
 			return EUnique, nil, nil
 		}
 		tmp[id] = d
@@ -1154,6 +1270,23 @@ func (e *Env) execQuery(what string, q *Query) {
 		e.flag("query-partial-result")
 	}
 	e.flag("query-op-" + q.Leaves[len(q.Leaves)-1].Op)
+	for _, l := range q.Leaves {
+		c := e.cfg.Cons[l.Path]
+		if (c.Upper || c.Lower) && l.V.K == "s" && canonCase(c, l.V.S) != l.V.S {
+			e.flag("probe-case-changed")
+			if len(set) > 0 {
+				e.flag("probe-case-changed-and-matches")
+			}
+		}
+		if e.cfg.Indexed(l.Path) {
+			e.flag("query-indexed-leaf")
+		} else {
+			e.flag("query-unindexed-leaf")
+		}
+		if strings.HasPrefix(l.Path, "Pt.") {
+			e.flag("query-through-pointer")
+		}
+	}
 	if len(q.Leaves) > 1 {
 		e.flag("query-chain")
 	}
@@ -1244,6 +1377,9 @@ func (e *Env) execQuery(what string, q *Query) {
 			for i := 1; i < len(ks); i++ {
 				if ks[i].cmp(ks[i-1]) == 0 {
 					e.flag("query-ordered-with-ties")
+					if q.Limit != nil && *q.Limit > 0 && *q.Limit < uint64(len(set)) {
+						e.flag("query-ordered-ties-limit-cuts")
+					}
 					break
 				}
 			}
@@ -1269,11 +1405,29 @@ func (e *Env) reopen(what string, abandon bool) {
 		e.flag("reopen")
 	}
 	e.dirty = false
+	e.reopened = true
+	for _, p := range e.cfg.IndexedPaths() {
+		for _, d := range e.m.objs {
+			n := normLeaf(d, p)
+			if p.Time && n.i != (Doc{}).T.UnixNano() {
+				e.flag("reopen-with-indexed-timestamp")
+			}
+			if (n.cls == ClsInt && !p.Time && (n.i > 1<<53 || n.i < -(1<<53))) || (n.cls == ClsUint && n.u > 1<<53) {
+				e.flag("reopen-with-indexed-int-beyond-2^53")
+			}
+		}
+	}
 	e.db = sod.Open(e.root)
 	if e.opts.DiffReopen {
 		// Control only looks at loaded schemas: load first
 		e.db.Count(&Doc{})
 		after := e.Observe(e.db, qs)
+		// integrity is not comparable while writes were pending on the old handle
+		if c, ok := after["control"]; ok && c != OK {
+			e.failf("%s: Control on the new handle: %s", what, c)
+		}
+		delete(after, "control")
+		delete(before, "control")
 		if d := diffObs(after, before); len(d) > 0 {
 			if len(d) > 6 {
 				d = d[:6]
@@ -1294,6 +1448,9 @@ func (e *Env) Run() {
 		if !applied {
 			e.flag("op-skipped")
 			continue
+		}
+		if e.reopened && op.Op != "reopen" && op.Op != "abandonReopen" {
+			e.flag("op-after-reopen")
 		}
 		if e.opts.SweepEveryOp || op.Op == "reopen" || op.Op == "abandonReopen" {
 			e.Check(fmt.Sprintf("after op %d (%s)", i, op.Op))
